@@ -228,6 +228,16 @@ def rowkey(row):
             tuple((p.reference.siteId, p.query.siteId) for p in row.alignedPairs))
 
 
+def rowdetail(row):
+    """everything C04 looks at: pairs, unpaired labels per segment, Confidence"""
+    from harness.pipeline import position_labels
+    segs = []
+    for sg in row.segments:
+        segs.append([[position_labels(p)[0], position_labels(p)[1], position_labels(p)[2]] for p in sg.positions])
+    c = row.confidence
+    return [list(rowkey(row)), segs, str(c)]
+
+
 def rowkey_nf(row):
     return rowkey(row)[:3] + rowkey(row)[4:]
 
@@ -249,7 +259,8 @@ def summary(res):
             out[mode] = {"main": [list(rowkey(x)) + [x.confidence] for x in r["main"]],
                          "files": {k: [list(rowkey(x)) for x in v] for k, v in sorted(r["files"].items())},
                          "scores": {repr(rowkey(x)): [[p.reference.siteId, p.query.siteId, p.score] for p in x.alignedPairs]
-                                    for x in r["main"] + [y for v in r["files"].values() for y in v]}}
+                                    for x in r["main"] + [y for v in r["files"].values() for y in v]},
+                         "detail": [rowdetail(x) for x in r["main"] + [y for v in r["files"].values() for y in v]]}
     return out
 
 
@@ -463,12 +474,43 @@ def oracle_c04(E, world, res):
             ps = pairs_of(row)
             if len({a for a, _ in ps}) != len(ps) or len({b for _, b in ps}) != len(ps):
                 E.fail("no-label-is-counted-in-two-pairs-of-one-record")
+            from harness.pipeline import position_labels
+            rl = [position_labels(p)[1] for sg in row.segments for p in sg.positions if position_labels(p)[1] is not None]
+            ql = [position_labels(p)[2] for sg in row.segments for p in sg.positions if position_labels(p)[2] is not None]
+            if len(set(rl)) != len(rl) or len(set(ql)) != len(ql):
+                E.fail("no-label-is-counted-twice-in-one-record-(paired-or-unpaired)")
     E.check("confidence-is-the-sum-of-the-scores-of-the-reported-positions", And(numeric))
 
 
 def oracle_c07(E, world, res):
     oracle_no_exception(E, world, res)
     E.check("checked", True)
+
+
+def classify_c04(cfg, snap, failures, out):
+    """Known finding 'joined-record-lists-a-label-paired-and-unpaired': the only failing clause is the per-record double count and every
+    record of every mode (pairs, unpaired labels per segment, Confidence) equals what the frozen reference tree writes for this input."""
+    if set(failures) != {"no-label-is-counted-twice-in-one-record-(paired-or-unpaired)"}:
+        return None
+    try:
+        import json
+        from fractions import Fraction
+        from symx.runner import jsonable
+        out = json.loads(json.dumps(jsonable(out)))
+        ref = reference_outcome(cfg, snap)
+        if "error" in ref:
+            return None
+        for mode in MODES:
+            mine = out[mode]
+            if isinstance(mine, list) or isinstance(ref[mode], list):
+                return None
+            a = [[d[0], d[1], Fraction(d[2]) if not isinstance(d[2], (int, float)) else Fraction(d[2])] for d in mine["detail"]]
+            b = [[d[0], d[1], Fraction(d[2])] for d in ref[mode]["detail"]]
+            if a != b:
+                return None
+        return "joined-record-lists-a-label-paired-and-unpaired"
+    except Exception:  # noqa
+        return None
 
 
 _REF = {"proc": None}
@@ -539,7 +581,7 @@ def make_body(prop):
 
 def multipass_unit(prop):
     return Unit(name="multipass-modes", body=make_body(prop), configs=lambda tier: multipass_configs(tier, prop), functions=MULTIPASS_FUNCTIONS,
-                classify=classify_c08 if prop == "C08" else None,
+                classify=classify_c08 if prop == "C08" else (classify_c04 if prop == "C04" else None),
                 bounds=MULTIPASS_BOUNDS, stubs=MULTIPASS_STUBS,
                 shard_depth=lambda cfg, tier: 10,
                 nontrivial_rule="at least one record is written in some mode",
